@@ -13,7 +13,11 @@ RUNS = [("before", "own-mutants.log"), ("before", "round1-first-run.log"), ("aft
         ("after", "full-regression-100-mutants.log"),
         ("before", "round7-first-run.log"), ("before", "round8-first-run.log"), ("after", "round8-after.log"),
         # the last run over everything decides the "after" column
-        ("after", "full-regression-final.log")]
+        ("after", "full-regression-final.log"),
+        # round 9 (after the freeze of round 8): first run, then the changed checks re-run over all their mutants
+        ("before", "round9-first-run.log"), ("after", "round9-after.log"),
+        ("after", "round9-regression-c11.log"), ("after", "round9-regression-c12.log"),
+        ("after", "round9-regression-c16.log"), ("after", "round9-regression-c19.log")]
 OVERRIDES = {
  "C12-r8m1": {"before": "HARNESS-ERROR (the change adds a variant to a public enum; an exhaustive match in the simulator no longer compiled)"},
  "C12-r6m2": {"checked_with": "C12", "after": "RETIRED (the code it changes was removed by fix f1bdc17)", "after_key": None},
@@ -22,6 +26,8 @@ OVERRIDES = {
  "C07-r6m2": {"checked_with": "C18 (first run: C07)"},
  "C10-r2m2": {"checked_with": "C10", "origin": "seeded", "before": "PATCH-DID-NOT-APPLY (context changed by fix d8f9cce; re-based)", "after": "DETECTED",
               "after_key": "C10 L2 ploidy error in a selected sample but exit 0"},
+ "C16-r9m1": {"before": "HARNESS-ERROR (the harness noticed that re-executing a case gave a different digest - the reader's verdict depended on earlier reads on the same worker thread - and stopped with exit 2)"},
+ "C11-r9m2": {"before": "HARNESS-ERROR (the change reshapes a method of the public trait genotype::Reader, which the simulator implements for its record source: the simulator no longer compiled)"},
  "C17-r2m1": {"before": "NOT-EVALUATED (that run stopped at a dependency panic that was not yet listed as a known finding)", "before_key": None},
  "C17-r2m2": {"before": "NOT-EVALUATED (that run stopped at a dependency panic that was not yet listed as a known finding)", "before_key": None},
 }
